@@ -313,6 +313,9 @@ class UnknownCallable(PyObj):
     def getattr_(self, ctx, name):
         return UnknownCallable(self.name + "." + name)
 
+    def setattr_(self, ctx, name, value):
+        ctx.abstracted("attribute assignment on unmodelled object %s.%s" % (self.name, name))
+
     def call_(self, ctx, args, kwargs):
         ctx.abstracted("call %s(...)" % self.name)
         for a in list(args) + list(kwargs.values()):
@@ -636,6 +639,14 @@ class Ctx:
                 fn(self)
             except PathEnd:
                 pass
+            except (Undecided, PyRaise, _Return, _Break, _Continue):
+                raise
+            except (TypeError, AttributeError, ValueError, KeyError, IndexError, z3.Z3Exception, RecursionError) as e:
+                # the code under contract produced a value shape the contract did not anticipate
+                import traceback
+                tb = traceback.extract_tb(e.__traceback__)
+                where = "%s:%d" % (tb[-1].filename.split('/')[-1], tb[-1].lineno) if tb else "?"
+                raise Undecided("contract does not apply to the code shape (%s: %s at %s)" % (type(e).__name__, e, where))
         self.session.npaths += n
         return n
 
@@ -1115,6 +1126,10 @@ class Interp:
         if isinstance(t, ast.Name):
             env_set(env, t.id, v)
         elif isinstance(t, (ast.Tuple, ast.List)):
+            if isinstance(v, Opaque):
+                for tt in t.elts:
+                    self.assign(tt, Opaque(v.why + "[i]"), env)
+                return
             items = self.iterate(v)
             if len(items) != len(t.elts):
                 raise PyRaise(ExcValue('ValueError', ('unpack',)))
@@ -2121,6 +2136,8 @@ def list_method(lst, name):
         return Model(lambda ctx, i, x: lst.insert(i, x), 'list.insert')
     if name == 'copy':
         return Model(lambda ctx: list(lst), 'list.copy')
+    if name == '__getitem__':
+        return Model(lambda ctx, k: ctx.interp.getitem(lst, k), 'list.__getitem__')
     if name == 'index':
         def index(ctx, x):
             for i, y in enumerate(lst):
@@ -2263,6 +2280,10 @@ def b_round(ctx, x, nd=None):
     if nd is not None:
         if isinstance(x, (int, float)):
             return round(x, nd)
+        if isinstance(nd, int) and isinstance(x, Sym):
+            scale = 10 ** nd if nd >= 0 else Fraction(1, 10 ** (-nd))
+            r = b_round(ctx, x * scale)
+            return to_real(r) / scale
         raise Undecided("round(x, ndigits) symbolic")
     if isinstance(x, (int, float, Fraction)):
         return round(x)
@@ -2290,7 +2311,7 @@ def b_isinstance(ctx, x, t):
             names.append(tt.tname)
         elif isinstance(tt, PyObj) and hasattr(tt, 'typename'):
             names.append(tt.typename)
-        elif isinstance(tt, UnknownCallable):
+        elif isinstance(tt, (UnknownCallable, Namespace)):
             names.append(tt.name)
         else:
             names.append(str(tt))
@@ -2401,10 +2422,25 @@ def b_str(ctx, x=''):
 
 
 def b_sorted(ctx, xs, key=None, reverse=False):
+    """stable sort; symbolic keys are ordered by branching on the comparisons (small lists only)"""
     items = ctx.interp.iterate(xs)
     if key is None and all(isinstance(x, (int, float, str)) for x in items):
         return sorted(items, reverse=reverse)
-    raise Undecided("sorted() of symbolic items: needs a contract model")
+    if len(items) > 6:
+        raise Undecided("sorted() of more than 6 symbolic items")
+    keys = [ctx.interp.call(key, [x], {}) if key is not None else x for x in items]
+    out = []        # list of (key, item), kept sorted; stable: a new element goes after equal keys
+    for k, it in zip(keys, items):
+        pos = len(out)
+        while pos > 0:
+            prev = out[pos - 1][0]
+            before = (k > prev) if reverse else (k < prev)
+            if ctx.truth(before):
+                pos -= 1
+            else:
+                break
+        out.insert(pos, (k, it))
+    return [it for _, it in out]
 
 
 def b_hasattr(ctx, o, name):
